@@ -531,7 +531,7 @@ func main() {
 	}
 	for kd := range labels {
 		if kd != "init" && kindSeen[kd] == 0 && os.Getenv("VERIF_C20_DEV") == "" && env.Replay == "" {
-			common.Inconclusive("property=C20 vacuous run: item kind %q never occurred", kd)
+			common.Vacuous("property=C20 vacuous run: item kind %q never occurred", kd)
 		}
 	}
 	rep.Finish()
